@@ -485,6 +485,54 @@ fn run_binary(ctx: &Ctx, only: Option<usize>) -> (u64, Vec<(String, String, Valu
             }
         }
     }
+    // a well-formed command followed, on the same connection, by a frame the decoder rejects: the
+    // answer must be that command's one reply and then one error frame -- nothing of the first reply
+    // may be sent again with the protocol error (seeded change C22b: reply scratch buffer not cleared
+    // on the protocol-error path)
+    let firsts: Vec<(&str, Vec<u8>, &[u8])> = vec![
+        ("ping", b"*1\r\n$4\r\nPING\r\n".to_vec(), b"+PONG\r\n"),
+        ("echo", b"*2\r\n$4\r\nECHO\r\n$2\r\nhi\r\n".to_vec(), b"$2\r\nhi\r\n"),
+        ("error-reply", b"*1\r\n$6\r\nFOOBAR\r\n".to_vec(), b"-"),
+    ];
+    let rejected: Vec<(&str, &[u8])> = vec![
+        ("inline-unclosed-quote", b"GRAPH.QUERY g \"RETURN 1\r\n"),
+        ("bulk-longer-than-announced", b"*1\r\n$3\r\nabcdef\r\n"),
+        ("array-of-unknown-type", b"*1\r\n?x\r\n"),
+    ];
+    if only.is_none() {
+        for (fname, fbytes, fexpect) in &firsts {
+            for (rname, rbytes) in &rejected {
+                n += 1;
+                let mut bytes = fbytes.clone();
+                bytes.extend_from_slice(rbytes);
+                match tcp_exchange(port, &bytes) {
+                    Err(e) => {
+                        let _ = child.kill();
+                        let _ = child.wait();
+                        let _ = std::fs::remove_dir_all(&dir);
+                        ctx.machinery(&format!("server binary exchange: {e}"));
+                    }
+                    Ok(got) => {
+                        // one reply to the command; then either one error frame or nothing (the server
+                        // may treat the rest as incomplete and wait)
+                        let frames = strict_frames(&got);
+                        let ok = got.starts_with(fexpect) && match &frames {
+                            Parse::Frames(1, _) => true,
+                            Parse::Frames(2, _) => {
+                                // the second frame is an error
+                                let first_len = if *fname == "error-reply" { got.iter().position(|b| *b == b'\n').map(|p| p + 1).unwrap_or(0) } else { fexpect.len() };
+                                got.get(first_len) == Some(&b'-')
+                            }
+                            _ => false,
+                        };
+                        if !ok {
+                            vios.push(("binary:sequence:reply-repeated-or-garbled-after-protocol-error".to_string(), format!("[binary/{fname}+{rname}] real server binary: {} followed by the rejected frame {} on one connection was answered {} — {:?}, expected the command's reply and at most one error frame", esc(fbytes), esc(rbytes), esc(&got), frames), json!({"gen": "binary-sequence", "first": fname, "rejected": rname})));
+                        }
+                    }
+                }
+            }
+        }
+    }
     let _ = child.kill();
     let _ = child.wait();
     let _ = std::fs::remove_dir_all(&dir);
@@ -627,8 +675,8 @@ fn main() {
             ctx.machinery("case count differs from generator cardinality");
         }
         ctx.cov("evaluations", evals + nbin);
-        ctx.cov("generator_cardinality", card_slots + card_off + card_pairs + binary_cases().len() as u64);
-        ctx.cov("generator_cardinality_by_generator", json!({"slots": card_slots, "offsets": card_off, "offset-pairs": card_pairs, "binary": binary_cases().len()}));
+        ctx.cov("generator_cardinality", card_slots + card_off + card_pairs + binary_cases().len() as u64 + 9);
+        ctx.cov("generator_cardinality_by_generator", json!({"slots": card_slots, "offsets": card_off, "offset-pairs": card_pairs, "binary": binary_cases().len(), "binary-sequences (3 commands x 3 rejected frames on one connection)": 9}));
         ctx.cov("exhaustive", true);
         ctx.cov("distinct_nontrivial", nontrivial);
         ctx.cov("rule", "cases are distinct (template, payload vector) / (base text, offset, payload) tuples; a case is non-trivial if at least one CR or LF byte was placed in client text");
